@@ -28,6 +28,8 @@ structure Launch where
   fed : List (Nat × Str) := []
   /-- the stage whose status is the pipeline's (`none`: status 0) -/
   statusFrom : Option Nat := none
+  /-- the last stage could not be started: the status is 1 -/
+  lastFailed : Bool := false
   capOut : Option Nat := none
 
 /-- the two things a launcher must provide: starting a pipeline, and a builtin that is the whole line printing
@@ -237,7 +239,7 @@ where
       let w1 : World := { w with shell := l.shell, np := l.np, pipesC := pc }
       let w2 := l.children.foldl (fun w (_, _, ops) => w.applyOpens ops) w1
       let (w3, sts) := playChildren l.shell cfg.lim l.children w2 []
-      let st := match l.statusFrom with
+      let st := if l.lastFailed then 1 else match l.statusFrom with
         | some i => getAssoc sts i 0
         | none => 0
       let captured := match l.capOut with
@@ -276,7 +278,8 @@ def modelLauncher : Launcher where
       { shell := r.shell, np := r.np, children := r.children, fed := r.fed, capOut := r.capOut,
         statusFrom := if bg then none else match r.fg.getLast? with
           | some (.stage i) => some i
-          | _ => none }
+          | _ => none,
+        lastFailed := r.hsFailed.contains (cmds.length - 1) }
   print := builtinPrint
 
 /-- the shell's table when a session starts: 0, 1, 2, and (when it runs a script file) the script itself,
